@@ -44,7 +44,7 @@ from modelx.core.space import (
     SpaceView,
     RefDict
 )
-from modelx.core.formula import NULL_FORMULA
+from modelx.core.formula import NULL_FORMULA, Formula
 from modelx.core.util import is_valid_name, AutoNamer
 from modelx.core.chainmap import CustomChainMap
 
@@ -1360,6 +1360,12 @@ class SpaceManager(SharedSpaceOperations):
                   is_derived=False, is_cached=True):
 
         # FIX: Creating a Cells of the same name in ``space``
+
+        if not is_valid_name(name) and formula is not None:
+            # The cells will be named after its formula: check that name
+            fname = Formula(formula).name
+            if is_valid_name(fname):
+                name = fname
 
         if not self._can_add(space, name, CellsImpl):
             raise ValueError("Cannot create cells '%s'" % name)
